@@ -12,11 +12,18 @@ Local Open Scope N_scope.
 Lemma has_attr_snoc e n a x sc : has_attr (CTag e n (a ++ [x]) sc) = true.
 Proof. destruct a; reflexivity. Qed.
 
+(* [covered]: everything except CDATA sections (html5lib scans for "]]>" in one step and replaces NUL there -- a
+   recorded finding; the section is only recognised when the tree builder allows it, i.e. in foreign content) *)
+Definition covered (m : tk) : bool :=
+  match st m with cdataSectionState | cdataSectionBracketState | cdataSectionEndState => false | _ => true end.
+
+(* one step of M_tok from a configuration related to [s]: no model error, the result is well-kinded, the
+   CDATA flag is kept and a CDATA section is entered only when it is set, and S_tok follows *)
 Definition simok (s : tk) (r : tk * bool) : Prop :=
   bad (fst r) = false /\ wk (fst r) = true /\
+  cdata_ok (fst r) = cdata_ok s /\ (covered (fst r) = false -> cdata_ok s = true) /\
   if snd r then exists j s', sp_iter j s = Some s' /\ R (fst r) s'
   else exists s', sp_step s = (s', false) /\ R (fst r) s'.
-
 Local Arguments lower_str : simpl never.
 Local Arguments flatr : simpl never.
 Local Arguments first_wins : simpl never.
@@ -44,6 +51,8 @@ Ltac split_bools :=
              cbv beta iota zeta delta [tmp_is emit set_inp set_out set_st set_tmp set_cur] in H; cbn [tmp] in H
          | H : N.eqb ?x ?n = true |- _ => apply N.eqb_eq in H; subst x
          end.
+Ltac cov_tac := first [ (let H := fresh in intro H; discriminate H) | (intros _; assumption) | (intros _; split_bools; assumption) ].
+Ltac side2 := (split; [reflexivity|]); (split; [cbn [cdata_ok]; cov_tac|]).
 Ltac rw_conds :=
   repeat match goal with
          | H : ?t = false |- context [?t] => lazymatch t with true => fail | false => fail | _ => rewrite H end
@@ -113,6 +122,7 @@ Ltac leaf_sim :=
   unfold simok; cbn [fst snd]; m_norm;
   split; [reflexivity|];
   split; [first [reflexivity | (unfold wk; cbn [st cur tmp]; autorewrite with simdb; first [apply has_attr_snoc | reflexivity])]|];
+  side2;
   first [ (eexists; split; [ solve [s_step] | solve [r_solve] ])
         | try_j 1%nat | try_j 2%nat | try_j 0%nat ].
 
@@ -184,12 +194,12 @@ Proof.
     rewrite IH by exact Hl. unfold lower_str. cbn [map]. rewrite <- app_assoc. reflexivity.
 Qed.
 
-(* [covered]: the configurations the simulation is proved for.  NOT covered: a step that consumes a character
+(* [plain]: the configurations the simulation is proved for.  NOT plain: a step that consumes a character
    reference (html5lib's consumeEntity against the standard's algorithm: decided by C05's theorems and the
    correspondence run, not by this refinement) and CDATA sections (html5lib scans for "]]>" in one step and
    replaces NUL there -- a recorded finding). *)
 Definition amp_next (m : tk) : bool := match inp m with 38 :: _ => true | _ => false end.
-Definition covered (m : tk) : bool :=
+Definition plain (m : tk) : bool :=
   match st m with
   | entityDataState | characterReferenceInRcdata
   | cdataSectionState | cdataSectionBracketState | cdataSectionEndState => false
@@ -233,10 +243,10 @@ Ltac prep_attrs :=
 Ltac sim_state name :=
   intros m s HR Hst Hwk Hcov;
   destruct m as [ms mi mc mt mo mcd mb]; destruct s as [ss si sc st' so scd sb];
-  unfold R in HR; cbn [st inp cur tmp out cdata_ok bad] in *;
-  destruct HR as (Hs & Hi & Ht & Ho & Hcd & Hb & Hsb & Hc); subst;
+  unfold R, sst, sinp in HR; cbn [st inp cur tmp out cdata_ok bad] in *;
+  destruct HR as (Hs & Hi & Ht & Ho & Hcd & Hb & Hsb & Hc); subst; cbv beta iota;
   eval_eqb; prep_cur; prep_wk; prep_attrs; cbn [ncur] in *; eval_eqb; autorewrite with simdb;
-  unfold covered, amp_next in Hcov; cbn [st inp] in Hcov; try discriminate Hcov;
+  unfold plain, amp_next in Hcov; cbn [st inp] in Hcov; try discriminate Hcov;
   unfold name;
   destruct mi as [|x r];
   cbv beta iota zeta delta [peek hd_error advance tl chars_until chars_while deq din is_eof dstr appropriate_bad set_bad];
@@ -267,6 +277,7 @@ Ltac batch_goal lem :=
   unfold simok; cbn [fst snd];
   split; [reflexivity|];
   split; [first [reflexivity | (unfold wk; cbn [st cur tmp]; autorewrite with simdb; first [apply has_attr_snoc | reflexivity])]|];
+  side2;
   match goal with
   | |- context [sp_iter _ (mk_tk _ (?x :: ?r) _ _ _ _ _)] =>
       match goal with
@@ -283,6 +294,7 @@ Ltac batch_goal_skip :=
   unfold simok; cbn [fst snd];
   split; [reflexivity|];
   split; [first [reflexivity | (unfold wk; cbn [st cur tmp]; autorewrite with simdb; first [apply has_attr_snoc | reflexivity])]|];
+  side2;
   match goal with
   | |- context [sp_iter _ (mk_tk _ (?x :: ?r) _ _ _ _ _)] =>
       match goal with
